@@ -58,6 +58,29 @@ Theorem C13_progress_until_final : forall cap s, 0 < cap -> reachable cap s -> ~
   exists e s', system_event e = true /\ step cap s e = Some s'.
 Proof. exact progress_reach. Qed.
 
+(* The loop registers a handler with the WaitGroup before it starts it (read from the source by
+   l4gen), so every state the wrapper reaches is a state of the model above, and it never panics. *)
+Theorem C13_wg_registered_before_go : L4.gen.Shape.layer4_listener_wg_add_before_go = true.
+Proof. exact wg_fact. Qed.
+
+Theorem C13_source_model_reachable : forall cap es s2,
+  run2 L4.gen.Shape.layer4_listener_wg_add_before_go cap init2 es = Some s2 -> reachable cap (base s2) /\ spawned s2 = [].
+Proof. exact source_model_reachable. Qed.
+
+Theorem C13_source_no_panic : forall cap es s2,
+  run2 L4.gen.Shape.layer4_listener_wg_add_before_go cap init2 es = Some s2 -> panicked (base s2) = false.
+Proof. exact source_no_panic. Qed.
+
+(* With wg.Add as the first statement of handle instead: a connection is accepted, the listener is
+   closed, the waiter finds the counter at zero and closes connChan, then the handler registers,
+   reaches pipeConnection and sends on the closed channel. *)
+Definition ex_late_register : list levent :=
+  [ LSpawn 1 Hijack; LE EClose; LE EAcceptFail; LE EWaiter; LRegister 1; LE (ERun 1); LE (ESend 1) ].
+
+Theorem C13_wg_add_inside_handle_refuted : exists cap es s2,
+  run2 false cap init2 es = Some s2 /\ panicked (base s2) = true.
+Proof. exists 1, ex_late_register. vm_compute. eexists. split; reflexivity. Qed.
+
 (* connChan never holds more than its capacity (a sender blocks instead) *)
 Theorem C13_channel_bounded : forall cap s, reachable cap s -> length (chan s) <= cap.
 Proof. exact chan_bounded_reach. Qed.
@@ -91,5 +114,9 @@ Print Assumptions C13_no_goroutine_stuck_bounded.
 Print Assumptions C13_no_goroutine_stuck.
 Print Assumptions C13_progress_until_final.
 Print Assumptions C13_channel_bounded.
+Print Assumptions C13_wg_registered_before_go.
+Print Assumptions C13_source_model_reachable.
+Print Assumptions C13_source_no_panic.
+Print Assumptions C13_wg_add_inside_handle_refuted.
 Print Assumptions C13_example_run.
 Print Assumptions C13_example_send_blocks.
